@@ -209,6 +209,12 @@ def run_check(prop, tier, seed, repo, replay=None, budget_s=None):
         if tgt is None or tgt in gen_used:
             broken.append({'obligation': 'table:' + str(tgt), 'detail': e.get('error') if isinstance(e, dict) else e})
 
+    # translators that re-derived a table by probing the code because they did not recognise a source shape:
+    # not a broken obligation (the table was regenerated), but the failing-input search is widened
+    advisories = [{'table': r['module'], 'advisory': a} for r in results if isinstance(r, dict)
+                  and r.get('module') in gen_used for a in r.get('advisories', [])]
+    info['advisories'] = advisories
+
     # ---- S1 verdicts
     obligations.append('build:' + prop_mod)
     if rc_p != 0:
@@ -312,11 +318,19 @@ def run_check(prop, tier, seed, repo, replay=None, budget_s=None):
                 if not any(k['key'] == v['key'] and k.get('status') == 'known' for k in known):
                     out.append(v)
         return out
-    if broken and not new_violations(ctxs) and hmod is not None:
+    if (broken or advisories) and not new_violations(ctxs) and hmod is not None:
         c2, herr2 = run_harness(True)
         ctxs.append(c2)
         if herr2 and not herr:
             broken.append({'obligation': 'harness(widened)', 'detail': herr2[-3000:]})
+        already = {b['obligation'] for b in broken}
+        for d in c2.disagreements:
+            ob = 'correspondence:' + d['stream']
+            if ob not in already:
+                already.add(ob)
+                if ob not in obligations:
+                    obligations.append(ob)
+                broken.append({'obligation': ob, 'detail': d})
 
     # ---- thorough: independent re-check of the compiled theorems
     if tier == 'thorough' and rc_p == 0:
@@ -381,6 +395,7 @@ def run_check(prop, tier, seed, repo, replay=None, budget_s=None):
             'lean_modules': prop_mods,
             'non_core_imports': info['external_imports'],
             'tables_regenerated': info['tables'],
+            'translator_advisories': info.get('advisories', []),
             'evaluations': tot_cases,
             'distinct_nontrivial': len(nontriv),
             'rule': getattr(hmod, 'RULE', 'cases generated by harness/%s.py from VERIF_SEED; distinct = distinct canonical JSON of the case; '
